@@ -26,17 +26,38 @@
 (*   Uint24Overflow    the Go carrier of uint24 is 32 bits wide; a value   *)
 (*                     >= 2^24 has no encoding (likewise an enum value     *)
 (*                     that needs more than w bytes).                      *)
+(*   MaxlenZeroIsWidth a vector whose declared maximum is 0 ("maxlen:0",   *)
+(*                     then necessarily "minlen:0") has no declared range: *)
+(*                     tls.go reads maxlen 0 as "no range given".  Its     *)
+(*                     prefix is one byte (the lower edge of 4.3: never    *)
+(*                     less than one byte) and it is bounded by that       *)
+(*                     prefix only, in both directions (0..255 bytes).     *)
+(*                                                                         *)
+(* The lower edge of the width rule (4.3, 4.5): a bound of 0 ("maxval:0",  *)
+(* "maxlen:0") still takes ONE byte - the width is what the maximum needs, *)
+(* and never less than one byte.  EnumMax / Vec / VecForm state it.        *)
+(*                                                                         *)
+(* Tag forms of a vector (the documented grammar is a comma-separated list *)
+(* of clauses in any order, "minlen" optional): "minmax" = minlen:N,       *)
+(* maxlen:M; "maxmin" = maxlen:M,minlen:N; "max" = maxlen:M (min = 0).     *)
+(* The form does not change Enc / Dec; it is carried so that the binding   *)
+(* hands the real code every spelling of the same bound.                   *)
 (***************************************************************************)
 EXTENDS Bytes, FiniteSets
 
 (* ---------- type descriptors ---------- *)
 U(w) == [k |-> "u", w |-> w]
 EnumSize(w) == [k |-> "enum", w |-> w, tag |-> "size", maxval |-> MaxNum(w)]
-EnumMax(d) == [k |-> "enum", w |-> IF d = <<>> THEN 1 ELSE Len(d), tag |-> "maxval", maxval |-> d]
+EnumMax(d) == [k |-> "enum", w |-> IF d = <<>> THEN 1 ELSE Len(d), tag |-> "maxval", maxval |-> d]    \* maxval:0 is one byte
 Arr(n) == [k |-> "arr", n |-> n]
 Byte == [k |-> "byte"]
 \* min, max: digit sequences; the prefix is as wide as max needs (4.3)
-Vec(min, max, elem) == [k |-> "vec", min |-> min, max |-> max, w |-> IF max = <<>> THEN 1 ELSE Len(max), elem |-> elem]
+BoundWidth(d) == IF d = <<>> THEN 1 ELSE Len(d)      \* bytes needed for values up to d: never less than one
+VecForms == {"minmax", "maxmin", "max"}
+VecForm(min, max, elem, form) == [k |-> "vec", min |-> min, max |-> max, w |-> BoundWidth(max), elem |-> elem, form |-> form]
+Vec(min, max, elem) == VecForm(min, max, elem, "minmax")
+\* <min..max> (4.3); MaxlenZeroIsWidth: no declared range when max = 0
+InRange(T, n) == T.max = <<>> \/ (NumLE(T.min, n) /\ NumLE(n, T.max))
 Field(name, t) == [name |-> name, t |-> t, sel |-> "", val |-> <<>>]
 Arm(name, t, sel, val) == [name |-> name, t |-> t, sel |-> sel, val |-> val]    \* val: digit sequence
 Struct(fields) == [k |-> "struct", fields |-> fields]
@@ -69,7 +90,7 @@ EncC(T, v, checked) ==
                      ELSE (IF v.k = "list" THEN EncList(T.elem, v.x, checked) ELSE Fail)
          IN IF ~body.ok THEN Fail
             ELSE LET n == NumOf(BLen(body.b)) IN
-                 IF Len(n) <= T.w /\ (~checked \/ (NumLE(T.min, n) /\ NumLE(n, T.max)))
+                 IF Len(n) <= T.w /\ (~checked \/ InRange(T, n))
                  THEN OkB(<<Lit(Pad(n, T.w))>> \o body.b) ELSE Fail
     [] T.k = "struct" ->
          IF v.k = "struct" /\ Len(v.x) = Len(T.fields)
@@ -115,7 +136,7 @@ Dec(T, b) ==
          IF BLen(b) < T.w THEN DFail
          ELSE LET n == Strip(Expand(Take(b, T.w)))
                   r == Drop(b, T.w) IN
-              IF ~(NumLE(T.min, n) /\ NumLE(n, T.max)) THEN DFail       \* <min..max> (4.3)
+              IF ~InRange(T, n) THEN DFail                              \* <min..max> (4.3)
               ELSE IF ~NumLE(n, NumOf(BLen(r))) THEN DFail              \* truncated
               ELSE LET m == IntOf(n) IN
                    IF T.elem.k = "byte" THEN DOk(VBytes(Take(r, m)), Drop(r, m))
